@@ -70,6 +70,12 @@ func init() {
 		out = append(out, only(base["C03"](t, s), "disturb", 8)...)
 		out = append(out, stratify(base["C07"](t, s), 8)...)
 		out = append(out, only(base["C09"](t, s), "rawsrv", 4)...)
+		for _, c := range base["C09"](t, s) {
+			if c.Family == "rawsrv" && c.S["dev"] == "retarget-unknown-id" {
+				out = append(out, c)
+			}
+		}
+		out = append(out, only(base["C11"](t, s), "settings", 1)...)
 		return out
 	})
 	wrap("C05", func(t string, s int64) []Case {
@@ -108,6 +114,7 @@ func init() {
 		out = append(out, only(base["C16"](t, s), "shape16", 4)...)
 		return out
 	})
+	wrap("C09", func(t string, s int64) []Case { return overrunCases(t, s) })
 	wrap("C15", func(t string, s int64) []Case {
 		// bubble families with many concurrent starters, under the race detector
 		out := only(base["C08"](t, s), "idstorm", 4)
